@@ -12,11 +12,12 @@ import glob, os, random, re, subprocess, time
 
 from ..dwgen import write_elf, Sym
 from ..dwcheck import TempElf
-from ..drv import Driver, DriverCrash, DriverTimeout
+from ..drv import Driver, DriverCrash, DriverTimeout, BUILD
 from ..harness import Evidence, run_pool, finish
 from ..hdr import elf_constants
 
 PID = "C18"
+CLI = os.path.join(BUILD, "bin", "dwgrep")
 RULE = ("generated .symtab-only ELF files: machines X86_64 386 ARM AARCH64 MIPS PPC PPC64 SPARC SPARCV9 S390 IA_64 PARISC ALPHA "
         "and an unknown number, ELF32/64 x LE/BE; 0-200 symbols covering all 16 types x 16 bindings x 4 visibilities, "
         "st_other high bits, boundary values and sizes, special section indices, empty/long/duplicate/non-ASCII names; every "
@@ -24,13 +25,13 @@ RULE = ("generated .symtab-only ELF files: machines X86_64 386 ARM AARCH64 MIPS 
         "cross-machine equality of type/binding constants; samples vs readelf -sW.  Non-trivial: the table has a "
         "processor- or OS-specific type or binding, or > 64 entries, or the machine is not x86.  Distinct by file content.")
 
-EM = {"X86_64": 62, "386": 3, "ARM": 40, "AARCH64": 183, "MIPS": 8, "PPC": 20, "PPC64": 21, "SPARC": 2, "SPARCV9": 43,
+EM = {"X86_64": 62, "386": 3, "ARM": 40, "AARCH64": 183, "MIPS": 8, "PPC": 20, "PPC64": 21, "SPARC": 2, "SPARCV9": 43, "SPARC32PLUS": 18,
       "S390": 22, "IA_64": 50, "PARISC": 15, "ALPHA": 0x9026, "UNKNOWN": 999}
 # machines whose natural class/endianness we use
 SHAPES = {"X86_64": (64, False), "386": (32, False), "ARM": (32, False), "AARCH64": (64, False), "MIPS": (32, True),
-          "PPC": (32, True), "PPC64": (64, True), "SPARC": (32, True), "SPARCV9": (64, True), "S390": (64, True),
+          "PPC": (32, True), "PPC64": (64, True), "SPARC": (32, True), "SPARCV9": (64, True), "SPARC32PLUS": (32, True), "S390": (64, True),
           "IA_64": (64, False), "PARISC": (32, True), "ALPHA": (64, False), "UNKNOWN": (64, False)}
-ARCH_OF = {"ARM": "ARM", "MIPS": "MIPS", "SPARC": "SPARC", "SPARCV9": "SPARC", "PARISC": "PARISC"}
+ARCH_OF = {"ARM": "ARM", "MIPS": "MIPS", "SPARC": "SPARC", "SPARCV9": "SPARC", "SPARC32PLUS": "SPARC", "PARISC": "PARISC"}
 
 
 def gen_symbols(rnd):
@@ -77,7 +78,7 @@ Q = ("symbol (|S| [S name] [S value] [S address] [S size] [S label] [S binding] 
      "[S label \"%s\"] [S binding \"%s\"] [S visibility \"%s\"])")
 
 
-def check_table(drv, ev, data, syms, mname, bits):
+def check_table(drv, ev, data, syms, mname, bits, cli_lines=None):
     with TempElf(data) as path:
         try:
             h = drv.open(path)
@@ -91,12 +92,28 @@ def check_table(drv, ev, data, syms, mname, bits):
             d = drv.run("symbol", tok, limit=1000)
         finally:
             drv.req("vclose %d" % h)
+        # what the command line tool itself prints for a symbol (it asks the library for the machine's constant
+        # families through the C API): index, value, size, then type, binding, visibility as the words render them
+        cli = None
+        if syms and cli_lines is not None:
+            pr = subprocess.run([CLI, path, "-e", "symbol"], stdout=subprocess.PIPE, stderr=subprocess.PIPE,
+                                env=dict(os.environ, ASAN_OPTIONS="detect_leaks=0"))
+            cli = (pr.returncode, pr.stdout, pr.stderr)
     if "error" in r or "error" in d:
         if not syms and "error" in r:
             return None
         return "symbol query failed: %r" % (r.get("error") or d.get("error"))
     if len(r["res"]) != len(syms) or len(d["res"]) != len(syms):
         return "`symbol` yields %d entries, the table has %d" % (len(r["res"]), len(syms))
+    if cli is not None:
+        rc, out, err = cli
+        lines = out.decode("latin-1").split("\n")
+        lines = lines[:-1] if lines and lines[-1] == "" else lines
+        # (a name may contain anything, also line breaks: take the fields from the front of the lines that start an entry)
+        starts = [l for l in lines if re.match(r"^\d+:\t0x?[0-9a-f]+ +\d+ ", l) or re.match(r"^\d+:\t0+ +\d+ ", l)]
+        if rc != 0 or len(starts) < len(syms):
+            return "the command line tool lists %d symbols (exit status %d), the table has %d: %r" % (len(starts), rc, len(syms), err[-200:])
+        cli_lines.extend(starts)
     stt = family_names("STT", mname)
     stb = family_names("STB", mname)
     stv = family_names("STV", mname)
@@ -119,6 +136,11 @@ def check_table(drv, ev, data, syms, mname, bits):
         doms = [cols[k]["e"][0]["d"] for k in (4, 5, 6)]
         if not (doms[0].startswith("STT") and doms[1].startswith("STB") and doms[2].startswith("STV")):
             return "entry #%d: label/binding/visibility are not STT_/STB_/STV_ constants: %r" % (i, doms)
+        if cli is not None and all(32 <= c < 127 for c in s.name) and i < len(cli_lines):
+            m = re.match(r"^(\d+):\t(\S+) +(\d+) ([^\t]+)\t([^\t]+)\t([^\t]+)\t(.*)$", cli_lines[i])
+            brief = [bytes.fromhex(cols[k]["e"][0]["x"]).decode("latin-1")[4:] for k in (8, 9, 10)]
+            if not m or int(m.group(1)) != i or [m.group(4), m.group(5), m.group(6)] != brief:
+                return "entry #%d: the command line tool prints %r; `label`, `binding`, `visibility` render as %r on this %s file" % (i, cli_lines[i][:120], brief, mname)
         for k, fam, code, pfx in ((8, stt, s.typ & 15, "STT"), (9, stb, s.bind & 15, "STB"), (10, stv, s.vis & 3, "STV")):
             txt = bytes.fromhex(cols[k]["e"][0]["x"]).decode("latin-1")
             if code in fam:
@@ -150,7 +172,10 @@ def work_gen(task):
             syms = gen_symbols(rnd)
             data = write_elf([(b".text", b"\0" * 64)], syms, machine=EM[mname], bits=bits, big=big)
             try:
-                why = check_table(drv, ev, data, syms, mname, bits)
+                with_cli = i % 3 == 0
+                why = check_table(drv, ev, data, syms, mname, bits, [] if with_cli else None)
+                if with_cli and syms:
+                    ev.label("cli-symbol-lines")
             except DriverCrash as e:
                 ev.violations.append({"property": PID, "elf_hex": data.hex()[:20000], "recipe": {"seed": seed, "index": i},
                                       "reason": "driver crashed: " + e.report[-3000:], "signature": "C18:crash:%d" % i})
